@@ -98,6 +98,9 @@ type c02Case struct {
 	// Wrapped: the handler / interceptor returns fmt.Errorf("...: %w", codedErr)
 	// rather than the *connect.Error itself.
 	Wrapped bool `json:"wrapped,omitempty"`
+	// Chain (with Wrapped): how the coded error sits in the chain: "" single %w,
+	// "join" errors.Join(coded, cleanupErr), "multi" fmt.Errorf("%w: %w", other, coded).
+	Chain string `json:"chain,omitempty"`
 }
 
 func (k c02Case) key() string {
@@ -109,7 +112,7 @@ func (k c02Case) key() string {
 		real += fmt.Sprintf("/window%d", k.Window)
 	}
 	if k.Wrapped {
-		real += "/wrapped"
+		real += "/wrapped" + k.Chain
 	}
 	return fmt.Sprintf("%s/code%d/msg%d/det%d/meta%d/sent%d/icept=%v/cause%d%s", k.Cfg, k.Code, k.Msg, k.Details, k.Meta, k.Sent, k.ByIcept, k.Cause, real)
 }
@@ -193,6 +196,12 @@ func c02Check(c *ev.Collector, k c02Case) {
 	var returned error = want
 	if k.Wrapped {
 		returned = fmt.Errorf("outer context: %w", want)
+		switch k.Chain {
+		case "join":
+			returned = errors.Join(want, errors.New("cleanup also failed"))
+		case "multi":
+			returned = fmt.Errorf("%w: %w", errors.New("while closing the ledger"), want)
+		}
 	}
 	var opts []connect.HandlerOption
 	if k.ByIcept {
@@ -370,10 +379,10 @@ func c02Cases(thorough bool) []c02Case {
 								for meta := range c02Metas {
 									for _, sent := range sents {
 										for _, ic := range []bool{false, true} {
-											out = append(out, c02Case{cfg, code, msg, det, meta, sent, ic, 0, false, 0, false})
+											out = append(out, c02Case{cfg, code, msg, det, meta, sent, ic, 0, false, 0, false, ""})
 											if code != 0 && msg < 3 && det < 2 {
 												for cause := 1; cause <= 3; cause++ {
-													out = append(out, c02Case{cfg, code, msg, det, meta, sent, ic, cause, false, 0, false})
+													out = append(out, c02Case{cfg, code, msg, det, meta, sent, ic, cause, false, 0, false, ""})
 												}
 											}
 										}
@@ -386,13 +395,13 @@ func c02Cases(thorough bool) []c02Case {
 				}
 				for code := 0; code <= 16; code++ {
 					for msg := range c02Messages[:c02LongMsg] {
-						out = append(out, c02Case{cfg, code, msg, 1, 1, 0, false, 0, false, 0, false})
+						out = append(out, c02Case{cfg, code, msg, 1, 1, 0, false, 0, false, 0, false, ""})
 					}
 					// coded errors whose cause chain ends in a context error or io.EOF keep their own code
 					if code != 0 {
 						for cause := 1; cause <= 3; cause++ {
 							for _, sent := range sents {
-								out = append(out, c02Case{cfg, code, 0, 1, 1, sent, false, cause, false, 0, false})
+								out = append(out, c02Case{cfg, code, 0, 1, 1, sent, false, cause, false, 0, false, ""})
 							}
 						}
 					}
@@ -401,7 +410,7 @@ func c02Cases(thorough bool) []c02Case {
 					for meta := range c02Metas {
 						for _, sent := range sents {
 							for _, ic := range []bool{false, true} {
-								out = append(out, c02Case{cfg, 10, 2, det, meta, sent, ic, 0, false, 0, false})
+								out = append(out, c02Case{cfg, 10, 2, det, meta, sent, ic, 0, false, 0, false, ""})
 							}
 						}
 					}
@@ -466,6 +475,10 @@ func c02Cases(thorough bool) []c02Case {
 							continue
 						}
 						out = append(out, c02Case{Cfg: cfg, Code: 5, Msg: 1, Details: 2, Meta: 1, Sent: sent, ByIcept: ic, Wrapped: true})
+						if !js {
+							out = append(out, c02Case{Cfg: cfg, Code: 5, Msg: 1, Details: 2, Meta: 1, Sent: sent, ByIcept: ic, Wrapped: true, Chain: "join"})
+							out = append(out, c02Case{Cfg: cfg, Code: 5, Msg: 1, Details: 2, Meta: 1, Sent: sent, ByIcept: ic, Wrapped: true, Chain: "multi"})
+						}
 					}
 				}
 			}
